@@ -163,6 +163,13 @@ QG0(env, cfg, plusPath) ==
     \* ---- form folding ("rule 4b")
     IF cfg.fold /\ hasCT /\ ~isForm /\ LowerSeq(MediaType(ct)) = bFormType
        THEN [err |-> NoErr, dc |-> TRUE]                    \* media type in another letter case: statement silent
+    \* a known charset other than UTF-8: what a decodable body means is left open, but an UNDECODABLE body is refused.
+    \* Undecodability is decided here for UTF-16 (odd length, lone surrogate) and for the WHATWG "replacement" labels
+    \* (any non-empty body); for the remaining legacy charsets nothing is claimed.
+    ELSE IF isForm /\ cs[1] /\ label \in Utf16Labels /\ Utf16Undecodable(env.body, label = B("utf-16be"))
+       THEN [err |-> Err(3, "InvalidBodyEncoding"), dc |-> FALSE]
+    ELSE IF isForm /\ cs[1] /\ label \in ReplacementLabels /\ env.body # <<>>
+       THEN [err |-> Err(3, "InvalidBodyEncoding"), dc |-> FALSE]
     ELSE IF isForm /\ cs[1] /\ label \in OtherKnownLabels THEN [err |-> NoErr, dc |-> TRUE]   \* statement silent
     ELSE IF isForm /\ cs[1] /\ label \notin Utf8Labels THEN [err |-> Err(3, "InvalidBodyEncoding"), dc |-> FALSE]
     ELSE IF isForm /\ ~Utf8Valid(env.body) THEN [err |-> Err(3, "InvalidBodyEncoding"), dc |-> FALSE]
